@@ -393,6 +393,29 @@ impl ConfigListener {
     }
 }
 
+#[cfg(nacos_group_r_nacos_verif)]
+impl ConfigListener {
+    /// pending long-polls: version -> keys it waits on (verification hook)
+    pub(crate) fn verif_dump(&self) -> String {
+        let mut pending: Vec<String> = self
+            .sender_map
+            .keys()
+            .map(|v| {
+                let mut keys: Vec<String> = self
+                    .listener
+                    .iter()
+                    .filter(|(_, vs)| vs.contains(v))
+                    .map(|(k, _)| format!("{}/{}/{}", k.data_id, k.group, k.tenant))
+                    .collect();
+                keys.sort();
+                format!("{}:{}", v, keys.join("+"))
+            })
+            .collect();
+        pending.sort();
+        format!("pending={}", pending.join(","))
+    }
+}
+
 #[bean(inject)]
 pub struct ConfigActor {
     pub(crate) cache: HashMap<ConfigKey, ConfigValue>,
